@@ -140,7 +140,8 @@ class JsonSchemaGenerator:
         elif issubclass(origin, MAP_TYPES):
             name = 'patternProperties'
             key_arg: dict = args_res[0]
-            val_arg: dict = args_res[1]
+            # a mapping declared with a key type only (Dict[str]): any value
+            val_arg: dict = args_res[1] if len(args_res) > 1 else {}
             pattern = dict(key_arg).get('pattern', None)
             if not pattern:
                 fmt = key_arg.get('format') or key_arg.get('type')
